@@ -1,0 +1,10 @@
+//go:build verif
+
+package cal
+
+// Contracts for the goblvc verifier (see /verif/DESIGN.md). Comments only.
+//
+// the current date is read from the clock: nothing is written (A-CLOCK)
+//@ func Today() (r)
+//@   trusted A-CLOCK: cal.Today reads the system clock and writes nothing
+//@   pure
